@@ -9,6 +9,7 @@
 (*                               opcode op (op = -1: pushes only).  A        *)
 (*                               constant 0..255 is PUSH1, 256..65535 PUSH2, *)
 (*                               -1 PUSH32 ff..ff, -2 PUSH8 ff..ff ("all gas")*)
+(*                               -(99+i) PUSHn Consts[i] (boundary catalogue)*)
 (*   <<"j",  k, <<>>>>  PUSH1 offset(statement k); JUMP     (labels: the     *)
 (*   <<"ji", k, <<>>>>  PUSH1 offset(statement k); JUMPI     assembler puts  *)
 (*   <<"jd", k, <<>>>>  PUSH1 offset(statement k)+1; JUMP    the byte offset)*)
@@ -22,7 +23,14 @@ EXTENDS KVMFrames, Json
 (***************************************************************************)
 (* Assembler                                                                 *)
 (***************************************************************************)
-PushC(c) == IF c >= 0 /\ c < 256 THEN <<PUSH1, c>>
+\* the boundary catalogue around 2^31, 2^32, 2^63, 2^64 and 2^255 (constant code -(99 + i) pushes Consts[i]):
+\* 2^16, 2^31-1, 2^31, 2^32-1, 2^32, 2^63-1, 2^63, 2^64-33, 2^64-32, 2^64-16, 2^64-1, 2^64, 2^64+1, 2^255
+FF(n) == [i \in 1..n |-> 255]
+ZZ(n) == [i \in 1..n |-> 0]
+Consts == << <<1, 0, 0>>, <<127>> \o FF(3), <<128>> \o ZZ(3), FF(4), <<1>> \o ZZ(4), <<127>> \o FF(7), <<128>> \o ZZ(7),
+             FF(7) \o <<223>>, FF(7) \o <<224>>, FF(7) \o <<240>>, FF(8), <<1>> \o ZZ(8), <<1>> \o ZZ(7) \o <<1>>, <<128>> \o ZZ(31) >>
+PushC(c) == IF c <= -100 THEN <<PUSH1 + Len(Consts[-c - 99]) - 1>> \o Consts[-c - 99]
+            ELSE IF c >= 0 /\ c < 256 THEN <<PUSH1, c>>
             ELSE IF c >= 256 /\ c < 65536 THEN <<PUSH1 + 1, c \div 256, c % 256>>
             ELSE IF c = -1 THEN <<PUSH32>> \o [i \in 1..32 |-> 255]
             ELSE IF c = -2 THEN <<PUSH1 + 7>> \o [i \in 1..8 |-> 255]
@@ -114,7 +122,7 @@ World0(e, codeA) ==
 (***************************************************************************)
 RECURSIVE Trim(_)
 Trim(w) == IF w = <<>> \/ w[1] # 0 THEN w ELSE Trim(Tail(w))       \* minimal big-endian bytes of a word
-Obs(m) == [s |-> m.halt, r |-> m.ret, g |-> m.gf, n |-> m.n,
+Obs(m) == [s |-> m.halt, r |-> m.ret, g |-> m.gf, n |-> m.n, h |-> m.hs,
            a |-> {[i |-> a, b |-> m.w[a].bal, n |-> m.w[a].nonce, d |-> m.w[a].sd,
                    c |-> IF a >= TokBase THEN m.w[a].code ELSE <<>>,
                    s |-> {<<Trim(k), Trim(m.w[a].st[k])>> : k \in DOMAIN m.w[a].st}] : a \in DOMAIN m.w},
